@@ -21,6 +21,7 @@ UNIT = dict(
             ("sub", "R8-lock", r"self\.in_flight\.cancel\(", "vx_lock(&self.in_flight).cancel(", 1),
             ("addarg", ["cancel"], TR, 1),
         ]),
+        "CoalesceError::clone@Clone": dict(),
         "CoalesceService::clone@Clone": dict(),
         "CoalesceService::poll_ready@Service": dict(rules=[("R10p", "CoalesceError::Service")]),
         "CoalesceService::call@Service": dict(rules=[
